@@ -134,6 +134,7 @@ type ContractSet struct {
 	Tables  []*TableFact
 	StableFields []*StableField
 	GlobalsRO    []*GlobalsReadonly
+	Builtins  []*BuiltinSpec
 	FrameSets map[string][]string
 	Slots   map[string]*FuncContract // contracts of function-valued struct fields: "pkg.Type.field"
 	Files   []string
@@ -247,6 +248,14 @@ func (cs *ContractSet) parseFile(path, pkg string) error {
 			}
 			cur = &FuncContract{Key: key, Pkg: pkg, Invariants: map[int][]*Clause{}, Decreases: map[int]*Clause{}, File: path, Line: line}
 			cs.Funcs[key] = cur
+			lastText = nil
+		case "builtin":
+			b, err := parseBuiltinSpec(rest, props, path, line)
+			if err != nil {
+				return fmt.Errorf("%s:%d: %v", path, line, err)
+			}
+			cs.Builtins = append(cs.Builtins, b)
+			cur = nil
 			lastText = nil
 		case "frameset":
 			// "frameset name = a, b, c": a named list for preserves clauses ("preserves @name")
